@@ -336,6 +336,47 @@ def check_classification(ctx):
            msg="regular names are %s" % names)
 
 
+def check_header_names(ctx):
+    """The column names of the header line are used as they are written (they name the user's score columns and are what -obs /
+    -fcst / Other(name) look up): the key under which a column position is recorded is the header word itself, or 'leadtime' for the
+    documented alias 'offset' - not a transformed spelling."""
+    prog = ctx.prog
+    site = "verif.input.Text.__init__"
+    m = prog.module("verif.input")
+    ev = trace.trace(prog, site)
+    sts = [e for e in trace.stores(ev, "indices") if len(e["indices"]) == 1 and isinstance(e["indices"][0], Rat)]
+    ctx.need(sts, "%s: the column positions (indices[name] = i) were not found" % site)
+
+    def word_of(k):
+        """k is a word of the whitespace split of a row: split(row)[i] / the element of a loop over split(row)"""
+        at = k.as_atom()
+        if at is None:
+            return False
+        if at.func == "getitem" and isinstance(at.args[0], Rat):
+            b = at.args[0].as_atom()
+        elif at.func.startswith("elem") and at.args and isinstance(at.args[0], Rat):
+            b = at.args[0].as_atom()
+        else:
+            return False
+        return b is not None and b.func == "m:split" and len(b.args) == 1 and isinstance(b.args[0], Rat) and b.args[0].as_atom() is not None \
+            and b.args[0].as_atom().func.startswith("elem#")
+    seen = set()
+    for e in sts:
+        k = e["indices"][0]
+        alts = [k]
+        at = k.as_atom("ifexp")
+        if at is not None:
+            alts = [x for x in at.args[1:3] if isinstance(x, Rat)]
+        for a in alts:
+            if a.key() in seen:
+                continue
+            seen.add(a.key())
+            ok = a.key() == "str:'leadtime'()" or word_of(a)
+            ctx.ob("C09.1", site, ok, "a column position is recorded under the header word itself (or 'leadtime' for 'offset')", loc=prog.loc(m, e["node"]),
+                   msg="column positions are recorded under %s, not under the header word as written: score columns are renamed and "
+                       "names that differ only in the transformed part collapse" % str(a)[:140], nontrivial=True)
+
+
 def check_metadata(ctx):
     prog = ctx.prog
     site = "verif.input.Text.__init__"
@@ -515,6 +556,7 @@ def run(ctx):
     check_keys(ctx, row_loop, writes, last_def)
     check_classification(ctx)
     check_metadata(ctx)
+    check_header_names(ctx)
     from . import c04
     from .c04 import _import
     sub = type(ctx)(ctx.prog, "C04", ctx.tier, True)
